@@ -17,6 +17,7 @@ def main(argv=None):
                     choices=["quick", "thorough"])
     ap.add_argument("--replay")
     ap.add_argument("--quiet", action="store_true")
+    ap.add_argument("--task", action="store_true", help="with --replay: replay the task prefix")
     a = ap.parse_args(argv)
     prop = a.prop.upper()
     try:
@@ -30,7 +31,7 @@ def main(argv=None):
         return 2
     try:
         if a.replay:
-            return core.run_replay(prop, a.replay, module, a.quiet)
+            return core.run_replay(prop, a.replay, module, a.quiet, a.task)
         return core.run_check(prop, a.tier, seed, module)
     except core.HarnessError as e:
         print("HARNESS-ERROR property=%s %s" % (prop, e), file=sys.stderr)
